@@ -7,9 +7,13 @@ begin/end); it never looks at files or at SQLite.
 
     content visible through a new Wtp(db_path) after a kill
       * a completed backup exists           -> exactly the backup snapshot
-      * killed while backup_db() was running -> the original pages (last committed content, either
-                                               side of the commit backup_db may perform) or the new
-                                               snapshot (or the previous completed backup, if any)
+      * killed while backup_db() was running
+          - no completed backup before      -> the original pages (last committed content, either side of
+                                               the commit backup_db may perform) or the new snapshot
+          - a completed backup exists       -> exactly that previous backup ("the last completed backup"; page
+                                               versions written after it must not survive); the new snapshot
+                                               only once the new backup has observably been installed (the
+                                               monitor reads the backup file the dead process left on its own)
       * no backup                           -> the last committed content (either side of an
                                                in-flight commit)
 
@@ -68,6 +72,7 @@ class RestoreModel:
         self.in_backup = False
         self.in_open = False
         self.snap_cand = None
+        self.new_backup_installed = False   # set by the monitor: the backup file left at the kill holds snap_cand
         self.history = [{}]      # commit points / snapshots in time order (for classification only)
         self.cur_op = None
         self.n_backups = 0
@@ -163,10 +168,13 @@ class RestoreModel:
     def allowed(self):
         """(expect_tag, [(label, content), ...]) for a kill right after the last fed event."""
         with_pending = apply(self.committed, self.pending)
+        if self.in_backup and self.backup is not None:
+            out = [("previous-backup", self.backup)]
+            if self.new_backup_installed:
+                out.append(("new-snapshot", self.snap_cand))
+            return "previous-backup", out
         if self.in_backup:
             out = [("original", self.committed), ("original+commit", with_pending), ("new-snapshot", self.snap_cand)]
-            if self.backup is not None:
-                out.append(("previous-backup", self.backup))
             if self.restored is not None:
                 out.append(("restored-snapshot", self.restored))
             return "original-or-snapshot", out
